@@ -91,6 +91,14 @@ def inSubnet (c : Conf) (ip : Nat) : Bool := ip / shiftOf c == c.gw / shiftOf c
 def offset (c : Conf) (ip : Nat) : Option Nat :=
   if c.start ≤ ip ∧ ip ≤ c.stop then some (ip - c.start) else none
 
+/-- `V4ServerConf.Validate` as the code decides today (accept = `true`):
+`newIPRange` wants start < end; the gateway must not lie in the INCLUSIVE range
+start … end; range start and range end must lie in the gateway's subnet.  (The
+addresses themselves are valid IPv4 addresses by construction of `Conf`.) -/
+def validate (c : Conf) : Bool :=
+  decide (c.start < c.stop) && !(decide (c.start ≤ c.gw) && decide (c.gw ≤ c.stop)) &&
+  inSubnet c c.start && inSubnet c c.stop
+
 def setFn {α β : Type} [DecidableEq α] (f : α → β) (k : α) (v : β) : α → β :=
   fun x => if x = k then v else f x
 
